@@ -56,7 +56,7 @@ VARIABLES
   k, pc, eos,         \* current element, control state, the peer has ended the stream
   queue,              \* mechanism: callbacks still to make for the current stanza
   cbs, reps,          \* observer: callbacks made / stanzas written while handling element k
-  reqs, ret           \* observer: requests a helper wrote, what it returned
+  reqs, ret           \* observer: requests a helper wrote, what it returned (sequences of at most one record)
 
 vars == <<cfg, script, k, pc, eos, queue, cbs, reps, reqs, ret>>
 
@@ -133,6 +133,8 @@ Features(c, node) ==
   ELSE IF node = "n1" /\ c.extra THEN {"urn:x:n1"} ELSE {}
 Idents(c, node) == IF node = "" /\ c.extra THEN {"client/bot/vt", "account/registered/"} ELSE {}
 DiscoItems(c, node) == IF node = "" /\ c.extra THEN <<"example.net#n1#sub">> ELSE <<>>
+FeatOrder == <<NSPing, NSTime, NSInfo, NSExtra, NSCarbons, "urn:xmpp:bookmarks:1+notify", "urn:xmpp:bookmarks:1", "urn:x:static", "urn:x:n1">>
+IdentOrder == <<"client/bot/vt", "account/registered/">>
 VersionInfo == <<"vt", "0.9", "tla">>
 FixedTime == <<"+02:00", "2020-01-02T03:04:05Z">>
 SetOf(q) == {q[i] : i \in 1..Len(q)}
@@ -233,8 +235,8 @@ P_ServeEnds == pc = "ended" => eos \/ (Cur /\ MayFail(S, cfg))
 P_HelperRequest == Cur => /\ Len(reqs) <= 1 /\ (reqs # <<>> => IsCall(S))
                           /\ \A i \in 1..Len(reqs) : ReqOK(S, reqs[i])
                           /\ (Done /\ IsCall(S) => Len(reqs) = 1)
-P_HelperResult == Cur => /\ (ret # None => IsCall(S))
-                         /\ (Done /\ IsCall(S) => ret # None /\ RetOK(S, ret))
+P_HelperResult == Cur => /\ (ret # <<>> => IsCall(S)) /\ Len(ret) <= 1
+                         /\ (Done /\ IsCall(S) => Len(ret) = 1 /\ RetOK(S, ret[1]))
 
 Safety ==
   /\ P_RosterAuthorised /\ P_CarbonAuthorised /\ P_OnlyRegistered /\ P_FieldsCarried /\ P_ExactlyOnce
@@ -245,7 +247,7 @@ Safety ==
 (* MECHANISM *)
 InitWith(c, s) ==
   /\ cfg = c /\ script = s /\ k = 0 /\ pc = "idle" /\ eos = FALSE
-  /\ queue = <<>> /\ cbs = <<>> /\ reps = <<>> /\ reqs = <<>> /\ ret = None
+  /\ queue = <<>> /\ cbs = <<>> /\ reps = <<>> /\ reqs = <<>> /\ ret = <<>>
 Init == \E sc \in Scenarios : InitWith(sc.cfg, sc.script)
 
 D(d) == d \in Dev
@@ -253,7 +255,7 @@ D(d) == d \in Dev
 (* the serve loop reads the next element (or the application calls a helper) *)
 Deliver ==
   /\ pc = "idle" /\ ~eos /\ k < Len(script)
-  /\ k' = k + 1 /\ cbs' = <<>> /\ reps' = <<>> /\ reqs' = <<>> /\ ret' = None /\ queue' = <<>>
+  /\ k' = k + 1 /\ cbs' = <<>> /\ reps' = <<>> /\ reqs' = <<>> /\ ret' = <<>> /\ queue' = <<>>
   /\ pc' = IF IsCall(script[k + 1]) THEN "creq" ELSE "route"
   /\ UNCHANGED <<cfg, script, eos>>
 
@@ -295,7 +297,7 @@ RouteStep ==
            THEN queue' = (IF h \in {"block", "unblock"} /\ cfg.block # "all" THEN <<>> ELSE Plan(S, cfg)) /\ pc' = "apply"
            ELSE \/ queue' = queue /\ pc' = "ended"              \* the handler fails on what it cannot decode
                 \/ queue' = queue /\ pc' = "default"            \* or ignores the stanza
-                \/ queue' = queue /\ pc' = "reply"              \* or answers
+                \/ IsRequest(S) /\ queue' = queue /\ pc' = "reply"   \* or answers
                 \/ /\ queue' \in (IF h \in {"block", "unblock"} /\ cfg.block # "all" THEN {<<>>} ELSE ValidCbs(S))
                    /\ pc' = "apply"                             \* or applies what is valid
      \/ /\ h \in {"blocklist", "ping", "version", "time", "info", "items", "extra"}
@@ -325,13 +327,13 @@ HandlerReplies(s, c) ==
     [] h = "time" -> {Rep(s, "result", "", "time", NSTime, "", IF c.timefn THEN FixedTime ELSE <<"Z", "now">>, <<>>)}
     [] h = "info" ->
          LET fs == Features(c, s.node)
-             ord == CHOOSE q \in [1..Cardinality(fs) -> fs] : SetOf(q) = fs
+             ord == SelectSeq(FeatOrder, LAMBDA f : f \in fs)
              feats == CASE D("FeatureDuplicated") /\ fs # {} -> ord \o <<ord[1]>>
                         [] D("StaticSourcesForgotten") -> SelectSeq(ord, LAMBDA f : f # "urn:x:static")
-                        [] D("FeaturesIgnoreNode") -> (LET g == Features(c, "") IN CHOOSE q \in [1..Cardinality(g) -> g] : SetOf(q) = g)
+                        [] D("FeaturesIgnoreNode") -> SelectSeq(FeatOrder, LAMBDA f : f \in Features(c, ""))
                         [] OTHER -> ord
              is == Idents(c, s.node)
-             iord == CHOOSE q \in [1..Cardinality(is) -> is] : SetOf(q) = is
+             iord == SelectSeq(IdentOrder, LAMBDA f : f \in is)
          IN {Rep(s, "result", "", "query", NSInfo, IF D("NodeDropped") THEN "" ELSE s.node, feats, iord)}
     [] h = "items" -> {Rep(s, "result", "", "query", NSItems, IF D("NodeDropped") THEN "" ELSE s.node, DiscoItems(c, s.node), <<>>)}
     [] h = "extra" -> {Rep(s, "result", "", "x", NSExtra, "", <<>>, <<>>)}
@@ -391,7 +393,7 @@ HelperRets(s) ==
     [] OTHER -> {RetRec("stanza", CondOf(s.shape), <<>>, <<>>, "")}
 CRet ==
   /\ pc = "cret"
-  /\ \E r \in HelperRets(S) : ret' = r
+  /\ \E r \in HelperRets(S) : ret' = <<r>>
   /\ pc' = "finish"
   /\ UNCHANGED <<cfg, script, k, eos, queue, cbs, reps, reqs>>
 
